@@ -213,7 +213,7 @@ pub fn run_c09_pure(ctx: &mut Ctx) {
         ctx,
         "time_slice_generated_clocks",
         clocks_strategy,
-        t.pick(600_000, 12_000_000),
+        t.pick(2_400_000, 24_000_000),
         |c, st| {
             st.sample(|| clocks_json(c));
             match c09_pure(c, st)? {
@@ -271,7 +271,7 @@ pub fn run_c09_pure(ctx: &mut Ctx) {
             e.1 = n;
         }
     }
-    run_prop(ctx, "go_command_parsing", go_strategy, t.pick(300_000, 5_000_000), |r, st| c09_parse(r, st), |r| json!({"go": go_tokens(r).0.join(" ")}));
+    run_prop(ctx, "go_command_parsing", go_strategy, t.pick(1_200_000, 10_000_000), |r, st| c09_parse(r, st), |r| json!({"go": go_tokens(r).0.join(" ")}));
 }
 
 pub fn replay_c09_pure(case: &Value) -> Option<CaseResult> {
